@@ -77,11 +77,13 @@ PROPS.update({
                 "existing / fresh / junk pointers and kept when RFC 6902 (reference evaluator) says they apply and they stay outside "
                 "publicKey/service. Oracle: refCompose left fold, compared on canonical JSON after normalising absent/null/empty lists; "
                 "unique ids in => unique ids out. Non-trivial: remove-then-re-add of an id, replace-then-add, partial id overlap, "
-                "also-known-as duplicate, or an ietf operation after a copy/move; distinct by (document, patches).",
+                "also-known-as duplicate, or an ietf operation after a copy/move; distinct by (document, patches). Second test: applicable "
+                "operations followed by one that the reference evaluator rejects must fail as a whole (non-trivial: at least one applicable operation before it).",
         "technique": "property-based testing (rapid): model-based comparison with a reference composer and an RFC 6902 reference evaluator",
         "level_text": "Randomised exploration of patch histories against an executable reference model of the documented per-action semantics.",
         "level_note": "Trusts the harness reference composer (about 150 lines, plain maps/slices) and its RFC 6902 evaluator.",
-        "assumptions": ["ietf operations that RFC 6902 itself rejects (missing target, '-' or out-of-range index for get, leading zeros, move into own child) are not compared with a reference: they only have to fail or succeed without panic (C19) and atomically (C12)"],
+        "assumptions": ["an ietf operation that the RFC 6902 reference evaluator rejects (missing target, failed test, location that is not an index of the array it addresses) must make ApplyPatches fail (TestC10_Inapplicable); the open finding F20 ('replace' of a missing object member is applied as add) is recognised by its signature, counted under 'excluded' and reported as KNOWN-FINDING",
+                        "operations reading an emptied also-known-as list are excluded (null vs [] is not specified); copy into the source's own subtree is excluded"],
     },
 })
 
@@ -89,7 +91,7 @@ PROPS.update({
     "C11": {
         "tests": "^TestC11_",
         "quick": {"scale": 1.0, "timeout": 900},
-        "thorough": {"scale": 80.0, "shards": 16, "timeout": 1800},
+        "thorough": {"scale": 80.0, "shards": 16, "timeout": 1800, "fuzz": [("FuzzC11", 90)]},
         "rule": "rapid: document with keys, services and other members; ietf-json-patch of 1-4 operations over all six kinds whose "
                 "path and from are drawn (1/3) from a list of protected / look-alike pointers (/publicKey, /service, elements, "
                 "sub-members, '-', leading-zero indices, prefix siblings, case variants, escaped tokens, root, alsoKnownAs) and (2/3) "
@@ -97,7 +99,7 @@ PROPS.update({
                 "members. Oracle: Validate(p)==nil and ApplyPatches succeeds => canonical JSON of publicKey and service unchanged. "
                 "Non-trivial: validated patch that mentions a protected name (or the root) in some field, or that applied and changed "
                 "the document; distinct by (document, operations).",
-        "technique": "property-based testing (rapid): invariant over validator verdict and composer result",
+        "technique": "property-based testing (rapid): invariant over validator verdict and composer result; native coverage-guided fuzzing of the operation-list text with the same invariant in thorough",
         "level_text": "Randomised exploration of RFC 6902 lists aimed at the protected members; the invariant is checked on every validated, applicable list.",
         "level_note": "Trusts the harness comparison of the publicKey/service members (canonical JSON after a JSON round trip).",
         "assumptions": ["absent, null and empty publicKey/service lists are the same state"],
